@@ -259,3 +259,47 @@ def _dates_ok(a, cons):
         except (ValueError, TypeError):
             return False
     return True
+
+
+def registered_callable(rm):
+    """What rule.py registers for a production and calls at parse time: (function node whose body
+    runs on a call, how that body refers to the production: ('name', n) or ('self', attr)), or
+    (None, None).  It is the nested function the decorator returns, or __call__ of the class the
+    decorator instantiates with the production."""
+    fw = rm.funcs.get("rule.fwrapper")
+    if fw is None or not fw.args.args:
+        return None, None
+    fparam = fw.args.args[0].arg
+    for n in ast.walk(fw):
+        if isinstance(n, ast.Assign) and len(n.targets) == 1 and isinstance(n.targets[0], ast.Subscript) \
+                and norm(n.targets[0].value) == "rules" and isinstance(n.value, ast.Tuple) and n.value.elts \
+                and isinstance(n.value.elts[0], ast.Name):
+            x = n.value.elts[0].id
+            inner = rm.funcs.get("rule.fwrapper." + x)
+            if inner is not None:
+                return inner, ("name", fparam)
+            for a in ast.walk(fw):
+                if isinstance(a, ast.Assign) and len(a.targets) == 1 and norm(a.targets[0]) == x \
+                        and isinstance(a.value, ast.Call) and isinstance(a.value.func, ast.Name) \
+                        and a.value.func.id in rm.classes:
+                    cname = a.value.func.id
+                    call = rm.funcs.get(cname + ".__call__")
+                    init = rm.funcs.get(cname + ".__init__")
+                    if call is None or init is None:
+                        return None, None
+                    # which constructor parameter receives the production
+                    pos = None
+                    for i, arg in enumerate(a.value.args):
+                        if isinstance(arg, ast.Name) and arg.id == fparam:
+                            pos = i
+                    kwn = [k.arg for k in a.value.keywords if isinstance(k.value, ast.Name) and k.value.id == fparam]
+                    iparams = [p.arg for p in init.args.args][1:]
+                    pname = iparams[pos] if pos is not None and pos < len(iparams) else (kwn[0] if kwn else None)
+                    if pname is None:
+                        return None, None
+                    for st_ in ast.walk(init):
+                        if isinstance(st_, ast.Assign) and len(st_.targets) == 1 and isinstance(st_.targets[0], ast.Attribute) \
+                                and norm(st_.targets[0].value) == "self" and norm(st_.value) == pname:
+                            return call, ("self", st_.targets[0].attr)
+                    return None, None
+    return None, None
